@@ -210,7 +210,7 @@ def index(ctx):
     newcmp = [c for c in b.calls if c.f in ("core::cmp::PartialEq::eq", "core::cmp::PartialEq::ne") and "MemberAddedResult" in c.self_ty]
     if not (R.anchor(ins, "by_addr.insert", "self.by_addr.insert in add_member") and R.anchor(rec, "recalculate_rings", "recalculate_rings call in add_member")):
         return
-    addr_writes = sorted({x[1] for x in cm.field_mutation_sites(F, MS, "addr", [b]) if x[2].startswith("assign")})
+    addr_writes = sorted({x[1] for x in _field_writes(F, b, MS, ("addr",))["addr"]})
     # scenario U: existing entry, newer identity (ret was not NewMember when compared)
     atoms = dict(vals[">"])
     for c in newcmp:
